@@ -18,6 +18,7 @@ THEOREMS = [
     "C41.to_future_last_or_error",
     "C41.empty_raises_no_elements",
     "C41.to_future_cancel_is_final",
+    "C41.to_future_done_disposes_source",
     "C41.run_eq_to_future",
     "C41.to_async_single_then_complete",
     "C41.to_async_invoked_once",
@@ -242,7 +243,7 @@ def _raw_source(events_holder):
         events_holder["observer"] = observer
         for n in events_holder.get("sync", []):
             _emit(observer, n)
-        return Disposable()
+        return Disposable(lambda: events_holder.__setitem__("disposed", True))
 
     return Observable(subscribe)
 
@@ -280,7 +281,7 @@ def impl_to_future(case):
             else:
                 _emit(holder["observer"], ev[1])
             _pump(loop)
-        return {"fut": _fut_state(fut)}
+        return {"fut": _fut_state(fut), "src_disposed": bool(holder.get("disposed"))}
     finally:
         if loop:
             loop.close()
@@ -519,7 +520,11 @@ def oracle(case, out):
         exp = _last_or_error(xs)
         if cut is not None and exp == ["pending"]:
             exp = ["cancelled"]
-        return None if fw.key(exp) == fw.key(out["fut"]) else f"future is {out['fut']}, prescribed {exp}"
+        if fw.key(exp) != fw.key(out["fut"]):
+            return f"future is {out['fut']}, prescribed {exp}"
+        if out["src_disposed"] != (exp != ["pending"]):
+            return f"source subscription disposed={out['src_disposed']} although the future is {exp}"
+        return None
     if op == "br_run":
         e = _last_or_error(case["xs"])
         exp = {"pending": ["blocks"], "result": ["returns"] + e[1:], "exception": ["raises"] + e[1:]}[e[0]]
